@@ -250,3 +250,57 @@ def shape(s, depth=0):
     if k == 'W':
         return {0: 'W', 1: 'Wout', 2: 'Win'}.get(s[1], 'W?') if s[2] is not None else 'star'
     return {'C': 'class', 'N': 'nothing', 'TC': 'tcon'}.get(k, k)
+
+
+def resolve(root, path):
+    """follow an adiff path on the live object graph; returns (parent object, attribute
+    name or index, value)"""
+    import re
+    cur = root
+    parent, key = None, None
+    for seg in re.findall(r'/[^/\[]+|\[\d+\]|\{[^}]*\}', path):
+        if seg.startswith('['):
+            i = int(seg[1:-1])
+            parent, key = cur, i
+            if isinstance(cur, (set, frozenset)):
+                return parent, key, None
+            cur = list(cur)[i] if not isinstance(cur, (list, tuple)) else cur[i]
+        elif seg.startswith('{'):
+            return parent, key, None
+        else:
+            cls, _, attr = seg[1:].partition(':')
+            parent, key = cur, attr
+            if cls == 'Program' and attr == 'decls':
+                cur = list(cur.context._context.get(('global',), {}).get('decls', {}).values())
+            elif attr == 'len':
+                return parent, key, None
+            else:
+                cur = cur.__dict__.get(attr)
+    return parent, key, cur
+
+
+def sget(s, path):
+    """sub-snapshot of a labelled snapshot at an adiff path (None if absent)"""
+    import re
+    cur = s
+    for seg in re.findall(r'/[^/\[]+|\[\d+\]', path):
+        if cur is None:
+            return None
+        if seg.startswith('['):
+            i = int(seg[1:-1])
+            if not (isinstance(cur, tuple) and len(cur) == 2 and cur[0] in ('L', 'S')):
+                return None
+            if i >= len(cur[1]):
+                return None
+            cur = cur[1][i]
+        else:
+            cls, _, attr = seg[1:].partition(':')
+            if not (isinstance(cur, tuple) and len(cur) == 2 and isinstance(cur[1], tuple)):
+                return None
+            nxt = None
+            for f in cur[1]:
+                if isinstance(f, tuple) and len(f) == 2 and f[0] == attr:
+                    nxt = f[1]
+                    break
+            cur = nxt
+    return cur
